@@ -10,8 +10,8 @@
      fits                             no more values than arguments, and every text converts
      req_ok                           every required argument gets a value.
    forms_ok f d below is the first group with the conversions of the option texts taken out
-   (items_form): wf_line f d = true -> forms_ok f d = true (wf_line_forms).  Each clause keeps
-   forms_ok and breaks ONE of the other conjuncts:
+   (items_form): wf_line f d = forms_ok f d && texts_convert d && fits .. && req_ok .. (wf_line_conjuncts, section 7).
+   Each clause keeps forms_ok and breaks ONE of the other conjuncts:
 
      1. surplus_positional       forms_ok, no multi-valued argument, more values than arguments
                                  -> Err CannotParse (strict)
